@@ -195,7 +195,7 @@ var schedToks = []string{"-", "A1", "A1,or,A2", "A1,and,A3,or,A2", "lp,A1,or,A2,
 
 // genSchedNow: a span placed relative to the wall clock, so that the `now` cut-off of Queries (and
 // `stop.IsZero() => stop = now`) is exercised; only unaligned every() is translation invariant. Every
-// decision point is at least 1 s away from `now`.
+// decision point is at least 2 s away from `now`.
 func genSchedNow(r *kit.Rand) string {
 	every := kit.Pick(r, []int64{10 * sec, 60 * sec})
 	k := int64(2 + r.Intn(3))
@@ -204,9 +204,9 @@ func genSchedNow(r *kit.Rand) string {
 	case 0:
 		off, rel = 0, k*every+every/2
 	case 1:
-		off, rel = -2*sec, k*every+sec // tick k*every: stop = tick+2s is after now, the tick itself is not
+		off, rel = -4*sec, k*every+2*sec // tick k*every: stop = tick+4s is after now, the tick itself is not
 	default:
-		off, rel = 3*sec, k*every-2*sec // tick k*every: stop = tick-3s is before now, the tick itself is not
+		off, rel = 5*sec, k*every-3*sec // tick k*every: stop = tick-5s is before now, the tick itself is not
 	}
 	stopS := "z"
 	bound := rel
@@ -381,6 +381,6 @@ func generate(out *kit.Out, f kit.Flags) {
 		nreal = 5
 	}
 	for k := 0; k < nreal; k++ {
-		emit(out, fmt.Sprintf("real%d", k), []string{fmt.Sprintf("livereal %d 3", kit.Pick(r, []int{40, 50, 70}))})
+		emit(out, fmt.Sprintf("real%d", k), []string{fmt.Sprintf("livereal %d 3", kit.Pick(r, []int{100, 120, 150}))})
 	}
 }
